@@ -183,7 +183,70 @@ fn record(args: &Args) {
             trace.event(ev);
         }
     }
+    large_capacities(&mut rng, &mut out);
     let (events, runs) = trace.finish();
     out.set_trace(events, runs);
     out.write(args);
+}
+
+/// Capacities far above the exhaustive bounds (around and above the default of 1024), checked
+/// call by call against the window definition of spec/Dedup (the last `capacity` distinct items,
+/// first in first out). These runs are too large for the trace spec's `has` binding, so the
+/// window is kept here as a plain queue; the oracle is the same sentence as `Dedup!IsDuplicate`.
+fn large_capacities(rng: &mut Rng, out: &mut Outcome) {
+    use std::collections::{HashSet, VecDeque};
+    for cap in [1023usize, 1024, 1025, 1500, 3000] {
+        let mut buf = match catch(|| DeduplicationBuffer::<Hash>::new(cap)) {
+            Ok(b) => b,
+            Err(p) => {
+                out.violation("C24", "dedup-panics", p, json!({"cap": cap}));
+                continue;
+            }
+        };
+        let mut window: VecDeque<u64> = VecDeque::new();
+        let mut members: HashSet<u64> = HashSet::new();
+        let mut next_fresh = 0u64;
+        let calls = 3 * cap + 200;
+        for call in 0..calls {
+            // mostly fresh items, sometimes an item from anywhere in the recent past
+            let x = if next_fresh > 0 && rng.chance(1, 4) {
+                let back = rng.below((cap as u64 + 50).min(next_fresh));
+                next_fresh - 1 - back
+            } else {
+                next_fresh += 1;
+                next_fresh - 1
+            };
+            let expected_new = !members.contains(&x);
+            out.eval();
+            let name = format!("big{x}");
+            let got = match catch(|| buf.insert(item(&name))) {
+                Ok(r) => r,
+                Err(p) => {
+                    out.violation("C24", "dedup-panics", p, json!({"cap": cap, "call": call}));
+                    break;
+                }
+            };
+            if expected_new {
+                if window.len() == cap {
+                    let old = window.pop_front().unwrap();
+                    members.remove(&old);
+                }
+                window.push_back(x);
+                members.insert(x);
+            }
+            let (len, setlen, _) = buf.verif_sizes();
+            if got != expected_new || len > cap || setlen > cap {
+                out.violation(
+                    "C24",
+                    "large-capacity-window-differs",
+                    format!(
+                        "capacity {cap}, call {call}: insert({x}) returned {got}, the window of the last {cap} distinct items says {expected_new}; ring {len}, set {setlen}"
+                    ),
+                    json!({"cap": cap, "call": call, "x": x}),
+                );
+                break;
+            }
+        }
+        out.count("large-capacity-runs");
+    }
 }
